@@ -33,6 +33,13 @@ ASSUMPTIONS = [
     "integer electron counts, charges and multiplicities (the property's scope); fractional charges are outside the model",
     "list arguments have one entry per fragment (from_arrays guarantees it)",
 ]
+LEVEL_TEXT = (
+    "proof. Every clause of the property is a theorem about the model for any number of fragments and any electron counts (soundness w.r.t. the "
+    "rules, refusal instead of a violating answer, acceptance of valid full specifications, idempotence including the ghost-rewriting branch, "
+    "the default for an unspecified input); the model is tied to chgmult.py by exhaustive (1 fragment) and sampled (2-4 fragments) differential "
+    "correspondence, directly and through from_arrays, plus an independent Python statement of the rules evaluated on every answer."
+)
+TECHNIQUE = "Lean 4 proofs by list induction / first-match search lemmas over a hand-written model + line-protocol correspondence + rule oracle"
 RULE = (
     "cases = (per-fragment zeff lists, c, fc[], m, fm[], zero_ghost_fragments); exhaustive blocks for 1 fragment over "
     "z in 0..ZMAX, c/fc in {None,-3..3}, m/fm in {None,1..6}; 2 fragments exhaustive over a smaller scope (thorough) or sampled; "
